@@ -93,43 +93,45 @@ Theorem C30_regex_sources_unchanged :
   color_hex_regex_src = expected_hex_regex_src /\ gradient_regex_src = expected_gradient_regex_src.
 Proof. exact regex_sources_unchanged. Qed.
 
-(* Full statement (DESIGN): ValidColor c -> the gradient definition written for c is well-formed and consists
-   of exactly the gradient element and its stop elements.  REFUTED on the faithful model of the pinned code:
-   a colour stop's position is never validated. *)
-Theorem C30_gradient_svg_safe_refuted :
-  forall css_ok : str -> bool, css_ok w_red = true -> css_ok w_blue = true ->
-    valid_color w_gid css_ok w_witness = true /\ is_gradient w_witness = true
-    /\ exists g, parse_gradient w_gid w_witness = Some g
-                 /\ tokenize (gradient_to_svg w_pct (fun _ => None) g) = None
-                 /\ contains w_script (gradient_to_svg w_pct (fun _ => None) g) = true.
-Proof. exact gradient_svg_safe_refuted. Qed.
+(* Gradient definitions (LinearGradientToSVG / RadialGradientToSVG / GradientToSVG since /repo commit cdd480e12: id,
+   offset and stop-color are escaped at the sink).  EVERY gradient record - any type, direction, stop colours and
+   positions, with no assumption on the colour parser - is written as exactly the gradient element with its stop
+   elements, each with exactly offset and stop-color; in particular this holds for whatever ValidColor lets through. *)
+Theorem C30_gradient_svg_safe :
+  forall (pct : nat -> nat -> str) (deg : str -> option (str * str)),
+    (forall s a b, deg s = Some (a, b) -> val_ok a = true /\ val_ok b = true) ->
+    forall g,
+      tokenize (gradient_to_svg pct deg g) = Some (gradient_tokens pct deg escape_text g)
+      /\ balanced (gradient_tokens pct deg escape_text g) [] = true.
+Proof. exact gradient_svg_safe. Qed.
 
-(* pinned code, guarded: if the colour parser only accepts safe stop colours (H_css, an oracle hypothesis the
-   harness evaluates on every stop colour — and finds false) and every stop position is safe, the definition is
-   exactly the expected elements *)
-Theorem C30_gradient_svg_safe_guarded :
+(* Historical (code before cdd480e12, no escaping; *_pinned definitions): the statement was REFUTED on the faithful
+   model - a colour stop's position was never validated - and held only under guards. *)
+Theorem C30_pinned_gradient_svg_safe_refuted :
+  forall css_ok : str -> bool, css_ok w_red = true -> css_ok w_blue = true ->
+    valid_color_pinned w_gid css_ok w_witness = true /\ is_gradient w_witness = true
+    /\ exists g, parse_gradient w_gid w_witness = Some g
+                 /\ tokenize (gradient_to_svg_pinned w_pct (fun _ => None) g) = None
+                 /\ contains w_script (gradient_to_svg_pinned w_pct (fun _ => None) g) = true.
+Proof. exact pinned_gradient_svg_safe_refuted. Qed.
+
+(* the repaired ValidColor rejects that witness *)
+Theorem C30_witness_rejected_now :
+  forall css_ok : str -> bool, valid_color w_gid css_ok w_witness = false.
+Proof. exact witness_rejected_now. Qed.
+
+Theorem C30_pinned_gradient_svg_safe_guarded :
   forall (pct : nat -> nat -> str) (deg : str -> option (str * str)),
     (forall s a b, deg s = Some (a, b) -> val_ok a = true /\ val_ok b = true) ->
     (forall i n, val_ok (pct i n) = true) ->
     forall (gid : str -> str) (css_ok : str -> bool) c g,
       (forall s, val_ok (gid s) = true) ->
       (forall s, css_ok s = true -> val_ok s = true) ->
-      valid_color gid css_ok c = true -> is_gradient c = true -> parse_gradient gid c = Some g ->
+      valid_color_pinned gid css_ok c = true -> is_gradient c = true -> parse_gradient gid c = Some g ->
       forallb (fun s => val_ok (st_pos s)) (g_stops g) = true ->
-      tokenize (gradient_to_svg pct deg g) = Some (gradient_tokens pct deg id_esc g)
+      tokenize (gradient_to_svg_pinned pct deg g) = Some (gradient_tokens pct deg id_esc g)
       /\ balanced (gradient_tokens pct deg id_esc g) [] = true.
-Proof. exact gradient_svg_safe_guarded. Qed.
-
-(* repaired code (coq/C30/fix.patch escapes id, offset and stop-color at the sink): EVERY gradient record —
-   any type, direction, stop colours and positions, with no assumption on the colour parser — is written as
-   exactly the gradient element with its stop elements, each with exactly offset and stop-color *)
-Theorem C30_gradient_svg_safe_fixed :
-  forall (pct : nat -> nat -> str) (deg : str -> option (str * str)),
-    (forall s a b, deg s = Some (a, b) -> val_ok a = true /\ val_ok b = true) ->
-    forall g,
-      tokenize (gradient_to_svg_fixed pct deg g) = Some (gradient_tokens pct deg escape_text g)
-      /\ balanced (gradient_tokens pct deg escape_text g) [] = true.
-Proof. exact gradient_svg_safe_fixed. Qed.
+Proof. exact pinned_gradient_svg_safe_guarded. Qed.
 
 (* non-vacuity of the hypotheses *)
 Example C30_render_hyps_satisfiable :
@@ -165,6 +167,7 @@ Print Assumptions C30_fields_safe_sufficient.
 Print Assumptions C30_render_attribute_names_fixed.
 Print Assumptions C30_valid_color_attr_safe.
 Print Assumptions C30_regex_sources_unchanged.
-Print Assumptions C30_gradient_svg_safe_refuted.
-Print Assumptions C30_gradient_svg_safe_guarded.
-Print Assumptions C30_gradient_svg_safe_fixed.
+Print Assumptions C30_gradient_svg_safe.
+Print Assumptions C30_pinned_gradient_svg_safe_refuted.
+Print Assumptions C30_witness_rejected_now.
+Print Assumptions C30_pinned_gradient_svg_safe_guarded.
